@@ -15,7 +15,7 @@ func zzSession(stor storage.Storage, maxManifest int64) *session {
 	closed := make(chan struct{})
 	close(closed) // no reference loop in this kernel: version ref messages take the closeC arm
 	s := &session{stor: newIStorage(stor), closeC: closed, abandon: make(chan int64, 8)}
-	s.setOptions(&opt.Options{MaxManifestFileSize: maxManifest})
+	s.setOptions(&opt.Options{MaxManifestFileSize: maxManifest, Compression: opt.NoCompression})
 	s.setVersion(nil, newVersion(s))
 	return s
 }
